@@ -8,13 +8,16 @@ Model (`Peg/Case.lean` on top of the Arpeggio mirror `Peg/Arp.lean`):
 `RegExMatch._parse` gets from `self.regex.match`), `tokTable` is the table the
 interpreter consults, `Lang.run` is `parser.parse(input)`, `termValue` is
 `Terminal.value`, `compileLit` is the choice of `Match` object and flag in
-`textx/lang.py` (`visit_str_match`, its `autokwd` branch, `visit_re_match`).
+`textx/lang.py` (`visit_str_match`, its `autokwd` branch → `KeywordMatch`,
+`visit_re_match`); `buildMM` / `buildAll` thread the process-wide regex cache
+behind `RegExMatch.compile` through a history of meta-model constructions.
 
 `FoldEq lower a b`: the two texts are equal character by character after
 lower-casing — every "case variation" of `a`, of *any* of its characters.
 
 What is proved, for every parser model, configuration, input, fuel:
-* tokens: `C20_tok_str`, `C20_tok`; flags: `C20_compile_ignore_case`;
+* tokens: `C20_tok_str`, `C20_tok`; flags: `C20_compile_ignore_case`, and for every history of earlier
+  meta-model constructions in the same process `C20_compile_history`;
 * parse: `C20_partial` / `C20_partial_tree` — when no terminal is case-sensitive
   (`NoCaseSensitiveTerminal`: all string tokens carry `ignore_case`, regex tokens
   satisfy the stated assumption `RxFoldInv`) and whitespace sets contain no cased
@@ -63,6 +66,21 @@ theorem C20_compile_ignore_case (isWord isDigit : Char → Bool) (cfg : Cfg) (h 
   | str s => simp only [compileLit]; split <;> exact h
   | re src => exact h
 
+/-- **Histories.**  Whatever meta-models (any grammars, any `ignore_case` / `autokwd` configurations) were
+constructed earlier in the same process, the `Match` objects built for a meta-model — including the compiled
+regex objects they match with, which come out of the process-wide `re` cache — are those of a fresh process;
+so with `ignore_case=True` every one of them is case-insensitive. -/
+theorem C20_compile_history (isWord isDigit : Char → Bool) (hist : List (Cfg × List Lit)) (cfg : Cfg)
+    (lits : List Lit) :
+    (buildMM isWord isDigit (buildAll isWord isDigit [] hist) cfg lits).2 = lits.map (compileLit isWord isDigit cfg) ∧
+      (cfg.ignoreCase = true →
+        ∀ m, m ∈ (buildMM isWord isDigit (buildAll isWord isDigit [] hist) cfg lits).2 → m.ignoreCase = true) := by
+  have h := (buildMM_ok isWord isDigit cfg lits (buildAll_ok isWord isDigit hist cacheOk_nil)).2
+  refine ⟨h, fun hic m hm => ?_⟩
+  rw [h] at hm
+  obtain ⟨l, _, rfl⟩ := List.mem_map.mp hm
+  exact C20_compile_ignore_case isWord isDigit cfg hic l
+
 /-- **Acceptance and parse tree (partial: under `NoCaseSensitiveTerminal`).**  The outcome of
 `parser.parse` — the tree with node identities, positions and lengths, or the furthest-failure
 position — is the same for two texts equal up to letter case. -/
@@ -71,16 +89,22 @@ theorem C20_partial {rx : Rx} {L : Lang} (hn : NoCaseSensitiveTerminal lower rx 
     L.run lower rx b fuel = L.run lower rx a fuel :=
   run_congr (similar_of_foldEq hn h) (wsOk_of_neutral hw a) L.top L.skipws hw.top fuel
 
+/-- the terminal's value is the grammar literal (`StrMatch`, `KeywordMatch`) -/
+def Tok.litOf : Tok → Option (List Char)
+  | .str lit _ => some lit
+  | .kw lit => some lit
+  | _ => none
+
 /-- The value of one terminal `(node, pos, len)` of the common tree, in the variant `b` versus the
 original `a`:
-1. a string literal yields the grammar's spelling in both;
-2. any other terminal (ID, base types, regex literals, keyword regexes) yields exactly the text written
-   in *its own* input at that span — the case it was written in is kept;
+1. a string literal (plain, or the keyword match of `autokwd`) yields the grammar's spelling in both;
+2. any other terminal (ID, base types, regex literals) yields exactly the text written in *its own* input at
+   that span — the case it was written in is kept;
 3. the two values are equal up to letter case;
 4. they are identical when the variation left the span alone (e.g. text matched by `ID`). -/
 theorem C20_values_keep_case (toks : Array Tok) {a b : Array Char} (h : FoldEq lower a b) (n p l : Nat) :
-    (∀ lit ic, toks[n]? = some (Tok.str lit ic) → termValue toks b n p l = lit ∧ termValue toks a n p l = lit) ∧
-    ((∀ lit ic, toks[n]? ≠ some (Tok.str lit ic)) → termValue toks b n p l = slice b p l) ∧
+    (∀ t lit, toks[n]? = some t → t.litOf = some lit → termValue toks b n p l = lit ∧ termValue toks a n p l = lit) ∧
+    ((∀ t, toks[n]? = some t → t.litOf = none) → termValue toks b n p l = slice b p l) ∧
     (termValue toks b n p l).map lower = (termValue toks a n p l).map lower ∧
     (AgreeOn a b p l → termValue toks b n p l = termValue toks a n p l) := by
   unfold termValue AgreeOn
@@ -89,10 +113,19 @@ theorem C20_values_keep_case (toks : Array Tok) {a b : Array Char} (h : FoldEq l
   | some t =>
     cases t with
     | str lit ic =>
-      refine ⟨fun _ _ e => ?_, fun hne => absurd rfl (hne lit ic), rfl, fun _ => rfl⟩
-      cases e; exact ⟨rfl, rfl⟩
-    | re => exact ⟨fun _ _ e => (nomatch e), fun _ => rfl, (slice_map_lower h p l).symm, fun e => e.symm⟩
-    | other => exact ⟨fun _ _ e => (nomatch e), fun _ => rfl, (slice_map_lower h p l).symm, fun e => e.symm⟩
+      refine ⟨fun _ _ e e2 => ?_, fun hne => ?_, rfl, fun _ => rfl⟩
+      · cases e; cases e2; exact ⟨rfl, rfl⟩
+      · exact nomatch (hne _ rfl)
+    | kw lit =>
+      refine ⟨fun _ _ e e2 => ?_, fun hne => ?_, rfl, fun _ => rfl⟩
+      · cases e; cases e2; exact ⟨rfl, rfl⟩
+      · exact nomatch (hne _ rfl)
+    | re =>
+      refine ⟨fun _ _ e e2 => ?_, fun _ => rfl, (slice_map_lower h p l).symm, fun e => e.symm⟩
+      cases e; exact nomatch e2
+    | other =>
+      refine ⟨fun _ _ e e2 => ?_, fun _ => rfl, (slice_map_lower h p l).symm, fun e => e.symm⟩
+      cases e; exact nomatch e2
 
 /-- **Accepted inputs.**  If `a` is accepted with tree `v`, every case variant `b` is accepted with the
 same tree, and the terminal values read off `b` are those of `a` up to letter case. -/
@@ -173,7 +206,7 @@ theorem demoRx_inv (i : Nat) : RxFoldInv (lowerTab asciiTab) demoRx i := by
 
 theorem demo_hyp : NoCaseSensitiveTerminal (lowerTab asciiTab) demoRx demoLang ∧
     WsNeutral (lowerTab asciiTab) demoLang := by
-  exact ⟨⟨(allIc_iff _).mp (by decide), fun i _ => demoRx_inv i⟩, wsNeutralB_sound (by decide)⟩
+  exact ⟨⟨(allIc_iff _).mp (by decide), fun i _ _ _ => demoRx_inv i⟩, wsNeutralB_sound (by decide)⟩
 
 /-- the hypotheses of `C20_partial` are satisfiable and the conclusion is about a successful parse -/
 example : demoLang.run (lowerTab asciiTab) demoRx "iF  Foo".toList.toArray 5 =
@@ -189,6 +222,20 @@ example : values demoLang.toks "iF  Foo".toList.toArray (.list [.term 1 0 2, .te
 example : strMatchLen (lowerTab asciiTab) "End".toList true "the eND".toList.toArray 4 = some 3 := by decide
 example : strMatchLen (lowerTab asciiTab) "End".toList false "the eND".toList.toArray 4 = none := by decide
 example : compileLit Char.isAlphanum Char.isDigit ⟨true, true⟩ (.str "end".toList) =
-    .regexMatch "end\\b".toList true := by decide
+    .keywordMatch "end".toList "end\\b".toList true ⟨"end\\b".toList, true⟩ := by decide
+example : compileLit Char.isAlphanum Char.isDigit ⟨true, true⟩ (.str "\\end".toList) =
+    .strMatch "\\end".toList true := by decide
+
+/-- a history: the same keyword compiled case-sensitively first (`autokwd`, `ignore_case=False`), then the
+meta-model with `ignore_case=True`: its keyword match works with a case-insensitive regex object -/
+example : (buildMM Char.isAlphanum Char.isDigit
+      (buildAll Char.isAlphanum Char.isDigit [] [(⟨false, true⟩, [.str "end".toList, .re "x+".toList])])
+      ⟨true, true⟩ [.str "end".toList, .re "x+".toList]).2 =
+    [.keywordMatch "end".toList "end\\b".toList true ⟨"end\\b".toList, true⟩,
+     .regexMatch "x+".toList true ⟨"x+".toList, true⟩] := by decide
+
+/-- a keyword terminal yields the grammar's spelling, whatever the case of the input -/
+example : values #[.other, .kw "If".toList, .re] "iF  Foo".toList.toArray (.list [.term 1 0 2, .term 2 4 3]) =
+    ["If".toList, "Foo".toList] := by decide +kernel
 
 end Peg.Case
